@@ -79,7 +79,10 @@ def case_bam(run, i):
     import cnvlib.coverage as C
     rng = run.rng("bam", i)
     ncont = int(rng.integers(1, 4))
-    contigs = [(f"chr{k + 1}", int(rng.integers(500, 5001))) for k in range(ncont)]
+    # contig naming: UCSC, Ensembl (all digits), and a BAM whose first contig is not a number while later ones are
+    style = (i // 2) % 3
+    names = [[f"chr{k + 1}" for k in range(3)], ["1", "2", "10"], ["X", "7", "12"]][style]
+    contigs = [(names[k], int(rng.integers(500, 5001))) for k in range(ncont)]
     indels = i % 4 == 3
     ncols = [3, 4, 6][i % 3]
     zero_width = i % 5 == 0 and not indels
